@@ -56,6 +56,17 @@ type Property struct {
 	Extra func(counters map[string]int64) map[string]interface{}
 }
 
+// Witness is a fixed directed case (the witness of a repaired defect) attached to a property.
+type Witness struct {
+	Prop string
+	Name string
+	Run  func() string // "" = fine, else what went wrong
+}
+
+var witnessTable []Witness
+
+func RegisterWitnesses(ws []Witness) { witnessTable = append(witnessTable, ws...) }
+
 var registry = map[string]*Property{}
 
 func Register(p *Property) { registry[p.ID] = p }
